@@ -198,14 +198,16 @@ func addrAddImm(a model.Addr, imm int32) model.Addr {
 	}
 }
 
-func immConst(t immType, i instruction) expr.Const {
+// immConst returns an immediate value of i sign extended to width w.
+func immConst(t immType, i instruction, w expr.Width) expr.Const {
 	imm, ok := t.parseValue(i.value)
 	if !ok {
 		panic(fmt.Sprintf("immediate encoding %d has no value", t))
 	}
-	// Immediatealways contains at most 20 bits, so 32 bits is always
-	// enough.
-	return expr.ConstFromInt(imm)
+	// Immediate always contains at most 20 bits, so it always fits 32 bits
+	// and wider. The sign has to be extended to the width of the operation
+	// as operands are zero extended otherwise.
+	return expr.NewConstInt(imm, w)
 }
 
 func regLoad(r reg, i instruction, w expr.Width) expr.Expr {
@@ -230,7 +232,7 @@ func lessFunc(a1, a2, t, f expr.Expr, w expr.Width) expr.Expr {
 }
 
 func regImmOp(f binaryExprFunc, t immType, i instruction, w expr.Width) expr.Expr {
-	return f(regLoad(rs1, i, w), immConst(t, i), w)
+	return f(regLoad(rs1, i, w), immConst(t, i, w), w)
 }
 
 func reg2Op(f binaryExprFunc, i instruction, w expr.Width) expr.Expr {
